@@ -365,6 +365,7 @@ def restrict(ex, st, a):
         cst = fresh("rs", term.sort())
         ax = z3.ForAll(ks, sel(cst, *ks) == z3.If(rng, sel(term, *ks), dflt), patterns=[sel(cst, *ks)])
         cache[key] = (cst, ax, term)
+        ex.ctx.__dict__.setdefault("restrict_log", []).append((cst, a.ndim))
     if not any(h.eq(ax) for h in st.pc[-60:]):
         st.assume(ax, tag="def:restrict")
     return cst
@@ -810,6 +811,14 @@ def L_np_where(ex, st, node, cond, *rest):
         st.assume(qforall([j], z3.Implies(z3.And(j >= 0, j < n, mj), z3.And(rank(j) >= 0, rank(j) < cnt, P[rank(j)] == j)), [trig[0]]))
     else:
         st.assume(qforall([j], z3.Implies(z3.And(j >= 0, j < n, mj), z3.And(rank(j) >= 0, rank(j) < cnt, P[rank(j)] == j))))
+    if ex.ctx.options.get("restrict_valfn"):
+        # relational mode: the enumeration of the true positions is a deterministic function of the in-range cells of the mask
+        rsm = restrict(ex, st, cond)
+        fc = ex.ctx.valfn.setdefault(("where.count",), z3.Function("np!where!count", rsm.sort(), z3.IntSort(), z3.IntSort()))
+        fp = ex.ctx.valfn.setdefault(("where.pos",), z3.Function("np!where!pos", rsm.sort(), z3.IntSort(), z3.IntSort(), z3.IntSort()))
+        st.assume(cnt == fc(rsm, n), tag="lib:where")
+        kk = fresh("k", z3.IntSort())
+        st.assume(qforall([kk], P[kk] == fp(rsm, n, kk), [P[kk]]), tag="lib:where")
     ex.ctx.where_rank = getattr(ex.ctx, "where_rank", {})
     ex.ctx.where_rank[pos.oid] = rank
     wcache[wkey] = (pos, list(st.pc[npc0:]), st.heap[pos.oid])
@@ -876,6 +885,9 @@ def L_median(name):
             f = z3.Function(f"np!{name}", ex.ctx.arr_sort("f8", 1), z3.IntSort(), ex.fm.sort)
             ex.ctx.valfn[key] = f
         src = a if a.dtype in ("f8", "f4") else ex.copy_array(st, a, "f8")
+        if ex.ctx.options.get("restrict_valfn"):
+            # relational mode: an order statistic is a deterministic function of the in-range cells
+            return f(restrict(ex, st, src), zint(a.shape[0]))
         return f(st.heap[src.oid], zint(a.shape[0]))
     return h
 
